@@ -142,6 +142,53 @@ def sterile_leg(res):
                               case=dict(kinds=kinds))
 
 
+def outage_leg(res):
+    """a long outage: tens of thousands of passes in which every write
+    datagram comes back with a wrong working counter (a terminal switched
+    off for minutes).  Every such pass counts one error per write datagram -
+    the 65535th and the 65537th like the first - and goes on re-enabling
+    the write datagrams; the real group program runs in the kernel
+    (BPF_PROG_TEST_RUN with a repeat count)"""
+    for layout in ("w", "ww", "wf"):
+        with kern.session() as sess:
+            w = dispatch.World(sess, layout)
+            try:
+                nwr = len(w.writers)
+                bad = w.frame((1, (False,) * nwr, ("bad",) * nwr))
+                total = 1
+                w.set_state(0, 1)
+                for n in (254, 65534 // nwr - 300, 200, 200, 65536 // nwr,
+                          3, 70000):
+                    kern.test_run(w.gl.fd, bad, repeat=n)
+                    total += n * nwr
+                    got = w.get_state()[1]
+                    res.case(["outage", layout, total], nontrivial=True)
+                    res.count("outage_passes", n)
+                    if got != total & 0xffffffff:
+                        res.violation(
+                            "unexplained:error-count-after-a-long-outage",
+                            f"layout {layout}: after {total - 1} write "
+                            f"datagrams with a wrong working counter "
+                            f"(starting from 1) the error counter reads "
+                            f"{got}, expected {total}",
+                            case=dict(layout=layout, errors=total - 1))
+                        break
+                    ret, out, _ = kern.test_run(w.gl.fd, bad)
+                    total += nwr
+                    idx, en, wk = w.abstract(out)
+                    if not all(en):
+                        res.violation(
+                            "unexplained:writers-not-enabled-after-a-long-"
+                            "outage",
+                            f"layout {layout}: after {total - 1} counted "
+                            f"errors a pass of the group program leaves the "
+                            f"write datagrams {en}",
+                            case=dict(layout=layout, errors=total - 1))
+                        break
+            finally:
+                w.close()
+
+
 def userspace_leg(params, res):
     """the user-space half of a fast group: the real FastSyncGroup.start /
     run / roundtrip_packet over the simulated bus; the responses handed back
@@ -240,6 +287,7 @@ def run_shard(params):
         userspace_leg(params, res)
     elif params.get("sterile"):
         sterile_leg(res)
+        outage_leg(res)
     else:
         c22.run_world(params, res, monitor21)
     return res
